@@ -1,25 +1,34 @@
 ---------------------------- MODULE MCInt2Str ----------------------------
-(* Bounded instance of Int2Str: one transition per value.  Init --Conv(w, sg, bits)--> state holding that value. *)
+(* Bounded instance of Int2Str: one Conv transition per value.                                                   *)
 (*   ExhWidths: every bit pattern of these widths, both signednesses                                            *)
 (*   FamWidths: the boundary family of these widths: 10^k + d, 2^k + d, 0 + d  for d in -2..2 (wrapping),        *)
 (*              which contains 0, the unsigned maximum, the signed minimum and maximum                           *)
-EXTENDS Int2Str, TLC, Json
+(* The ghost `sel` only spreads the work over TLC's workers (a worker checks the invariants of the states it      *)
+(* generates): Init --Fork--> (a selection: width, signedness, upper half of the bits / a family base)           *)
+(* --Conv(w, sg, bits)--> state holding that value.  Fork changes no specification variable; only Conv            *)
+(* transitions are printed as edges.                                                                             *)
+EXTENDS Int2Str, Json
 CONSTANTS ExhWidths, FamWidths
-VARIABLE act                                   \* ghost: last action and its arguments
+VARIABLES act,                                 \* ghost: last action and its arguments
+          sel                                  \* ghost: selection made by Fork
 
 Shift(b, d) == CASE d = -2 -> BDec(BDec(b)) [] d = -1 -> BDec(b) [] d = 0 -> b [] d = 1 -> BInc(b) [] d = 2 -> BInc(BInc(b))
 Bases(w) == {P10B[w][k] : k \in 0..(MaxDigits[w] - 1)}
             \cup {[i \in 1..w |-> IF i = w - k THEN 1 ELSE 0] : k \in 0..(w - 1)}
             \cup {[i \in 1..w |-> 0]}
-Family == [w \in FamWidths |-> {Shift(b, d) : b \in Bases(w), d \in -2..2}]
+NoSel == [k |-> "none", w |-> 0, sg |-> FALSE, b |-> <<>>]
+NoAct == [n |-> "Init", w |-> 0, sg |-> FALSE, bits |-> <<>>]
 
-MCInit == Init /\ act = [n |-> "Init", w |-> 0, sg |-> FALSE, bits |-> <<>>]
-ConvExh == \E w \in ExhWidths, sg \in BOOLEAN : \E b \in [1..w -> {0, 1}] :
-              Convert(w, sg, b) /\ act' = [n |-> "Conv", w |-> w, sg |-> sg, bits |-> b]
-ConvFam == \E w \in FamWidths, sg \in BOOLEAN : \E b \in Family[w] :
-              Convert(w, sg, b) /\ act' = [n |-> "Conv", w |-> w, sg |-> sg, bits |-> b]
-MCNext == act.n = "Init" /\ (ConvExh \/ ConvFam)
-MCSpec == MCInit /\ [][MCNext]_<<vars, act>>
+MCInit == Init /\ act = NoAct /\ sel = NoSel
+Fork == /\ sel = NoSel /\ act.n = "Init"
+        /\ \/ \E w \in ExhWidths, sg \in BOOLEAN : \E hi \in [1..(w \div 2) -> {0, 1}] : sel' = [k |-> "exh", w |-> w, sg |-> sg, b |-> hi]
+           \/ \E w \in FamWidths, sg \in BOOLEAN : \E b \in Bases(w) : sel' = [k |-> "fam", w |-> w, sg |-> sg, b |-> b]
+        /\ UNCHANGED <<vars, act>>
+Conv(b) == Convert(sel.w, sel.sg, b) /\ act' = [n |-> "Conv", w |-> sel.w, sg |-> sel.sg, bits |-> b] /\ sel' = NoSel
+ConvExh == sel.k = "exh" /\ act.n = "Init" /\ \E lo \in [1..(sel.w \div 2) -> {0, 1}] : Conv(sel.b \o lo)
+ConvFam == sel.k = "fam" /\ act.n = "Init" /\ \E d \in -2..2 : Conv(Shift(sel.b, d))
+MCNext == Fork \/ ConvExh \/ ConvFam
+MCSpec == MCInit /\ [][MCNext]_<<vars, act, sel>>
 
 \* third formulation, only where TLC's own integers suffice (w <= 16): numeral by native div/mod
 NatOf(b) == LET F[i \in 0..Len(b)] == IF i = 0 THEN 0 ELSE 2 * F[i-1] + b[i] IN F[Len(b)]
@@ -27,19 +36,20 @@ RECURSIVE NatText(_)
 NatText(n) == IF n < 10 THEN <<ZeroCh + n>> ELSE NatText(n \div 10) \o <<ZeroCh + (n % 10)>>
 IntText(v) == IF v < 0 THEN <<MinusCh>> \o NatText(-v) ELSE NatText(v)
 NativeAgrees == (Has /\ cur.w <= 16) =>
-                   LET u == NatOf(cur.bits)
-                       v == IF cur.sg /\ cur.bits[1] = 1 THEN u - 2^cur.w ELSE u
-                   IN Digits(cur.bits, cur.sg) = IntText(v)
-\* the family really contains the limits
-FamilyHasLimits == \A w \in FamWidths :
-                      /\ [i \in 1..w |-> 0] \in Family[w] /\ [i \in 1..w |-> 1] \in Family[w]
-                      /\ [i \in 1..w |-> IF i = 1 THEN 1 ELSE 0] \in Family[w]
-                      /\ [i \in 1..w |-> IF i = 1 THEN 0 ELSE 1] \in Family[w]
-ASSUME FamilyHasLimits
-ASSUME \A w \in Widths : \A k \in 0..(MaxDigits[w] - 1) : DecOfBits(P10B[w][k]) = DecPow10(k)   \* the constants are 10^k
+                   Let1(NatOf(cur.bits), LAMBDA u :
+                      num = IntText(IF cur.sg /\ cur.bits[1] = 1 THEN u - 2^cur.w ELSE u))
+\* the family contains the limits; the constants of the length functions are the powers of ten
+Fam(w) == {Shift(b, d) : b \in Bases(w), d \in -2..2}
+ASSUME \A w \in FamWidths :
+          /\ [i \in 1..w |-> 0] \in Fam(w) /\ [i \in 1..w |-> 1] \in Fam(w)
+          /\ [i \in 1..w |-> IF i = 1 THEN 1 ELSE 0] \in Fam(w)
+          /\ [i \in 1..w |-> IF i = 1 THEN 0 ELSE 1] \in Fam(w)
+ASSUME \A w \in Widths : \A k \in 0..(MaxDigits[w] - 1) : DecOfBits(P10B[w][k]) = DecPow10(k)
+ASSUME \A w \in Widths : IsDec(Pow2Dec[w]) /\ Len(Pow2Dec[w]) = MaxDigits[w]
 
 St(c) == [w |-> c.w, sg |-> c.sg, bits |-> c.bits]
-EdgeOut == PrintT("EDGE " \o ToJson([i |-> (act.n = "Init"), pre |-> St(cur),
-                                     a |-> [n |-> act'.n, w |-> act'.w, sg |-> act'.sg, bits |-> act'.bits],
-                                     post |-> St(cur')]))
+EdgeOut == act'.n = "Conv" =>
+             PrintT("EDGE " \o ToJson([i |-> (act.n = "Init"), pre |-> St(cur),
+                                       a |-> [n |-> act'.n, w |-> act'.w, sg |-> act'.sg, bits |-> act'.bits],
+                                       post |-> St(cur')]))
 =============================================================================
